@@ -24,7 +24,7 @@ CHECKS = {
  "C14": dict(cat="model_checking", ref="6.C14", engine="function-reference", tech="TLA+ reference normaliser (CanonRef.tla) explored exhaustively by TLC (one state per string, laws as invariants); every enumerated string replayed on CanonicalizePath with the TLC-computed expectation; random long paths validated by TLC (CanonTrace.tla)",
              text="Bounded-exhaustive in both the model and the implementation: all strings over {a,b,.,/} up to the stated length are TLC states on which the laws of the property hold for the reference, and each is an implementation test; random long paths with arbitrary bytes are checked code->spec.",
              note="Trusted: TLC; CanonRef.tla as the meaning of lexical equality (one-step rewrites) and of the normal form. Bounded by the alphabet and length given in the evidence."),
- "C16": dict(cat="model_checking", ref="6.C16", engine="function-reference", tech="TLA+ quoting reference and sh word-formation model (ShellQuote.tla) checked by TLC for every name/list state; each state replayed through the real Edge expansion and the real /bin/sh; rspfile clauses by TLC trace validation of engine executions",
+ "C16": dict(cat="model_checking", ref="6.C16", engine="function-reference", tech="TLA+ quoting reference and sh word-formation model (ShellQuote.tla) checked by TLC for every name/list state; each state replayed through the real Edge expansion and the real /bin/sh; rspfile clauses by TLC trace validation of engine executions (in-process harness, and the real binary on the real file system: a failing command leaves its response file behind, the content then shrinks)",
              text="Every name of <= 2 bytes, every 3-byte name over the shell-special alphabet and every list of <= 3 hostile names is a TLC state satisfying ShWords(JoinQ(names)) = names; the real $in/$out/$in_newline expansion of each is executed through /bin/sh -c and must give back exactly the names (alarm), equality with the reference text is reported as conformance; response-file monitors run on engine traces.",
              note="Trusted: TLC; /bin/sh (dash) as the shell; the argv helper. The sh model is bound to the real shell by executing every expansion."),
  "C08": dict(cat="model_checking", ref="6.C08", engine="log-model", tech="TLA+ byte-level model of .ninja_log (BuildLog.tla) model-checked by TLC over all record/tear/append sequences; TLC-exported and random operation sequences replayed on the real BuildLog with real files and validated by TLC (BuildLogTrace.tla)",
@@ -36,8 +36,8 @@ CHECKS = {
  "C15": dict(cat="model_checking", ref="6.C15", engine="function-reference", tech="TLA+ encoder of the GCC/Clang depfile dialect and reference decoder (Depfile.tla); TLC checks Decode(Encode(x)) = x for every bounded rule list x layout x dialect inside the injective fragment; every such text replayed on DepfileParser::Parse with the expected reading",
              text="One TLC state per (rule list, layout, dialect); the round-trip law holds on the reference inside the fragment where the dialect is injective (collisions are computed over the exported families and must lie outside it); each fragment text is an implementation test. The backslash-before-'$' defect of the tree is a listed known finding.",
              note="Trusted: TLC; Depfile.tla's Encode as what GCC (>= 10 and < 10) and Clang write, Decode as the documented reading. Bounded: names <= 3 characters over an 8-character alphabet, <= 3 dependencies exhaustively, 24-name lists sampled."),
- "C06": dict(cat="model_checking", ref="6.C06", tech="pool assignments x -j x jobserver sizes x failures x interrupts generated from Families.tla; all completion orders on the real Plan/Builder/pools and the real POSIX jobserver client on a real FIFO; TLC trace validation against the limit / no-idle / token monitors of RefTrace.tla",
-             text="Invariants at every Start (running <= -j, per-pool <= depth, console 1, running <= tokens held, started once), at every Wait (no startable command while a slot is free and budget lasts), at Exit on every path (tokens in the FIFO = initial, never 'stuck'); termination by a watchdog on each invocation."),
+ "C06": dict(cat="model_checking", ref="6.C06", tech="pool assignments x -j x jobserver sizes x failures x interrupts generated from Families.tla; all completion orders on the real Plan/Builder/pools and the real POSIX jobserver client on a real FIFO; TLC trace validation against the limit / no-idle / token monitors of RefTrace.tla; design-level model checking of NinjaImplMC.tla on pool graphs (invariants Limits and NoIdle, liveness Termination under FairSpec), bound to the code by replaying every recorded plain invocation step by step on the model's invocation state (ImplDynTrace.tla)",
+             text="Invariants at every Start (running <= -j, per-pool <= depth, console 1, running <= tokens held, started once), at every Wait (no startable command while a slot is free and budget lasts), at Exit on every path (tokens in the FIFO = initial, never 'stuck'); termination by a watchdog on each invocation. Design level: every completion and failure order of one invocation over pool graphs, -j 1..3, -k 1/2/unlimited, exhaustively; the dynamic conformance (evidence: impl_conformance.dynamic) carries it to the code."),
  "C07": dict(cat="fault_enumeration", ref="6.C07", tech="named crash points (VERIF_CRASH_POINT hooks) x passage number and interrupts at every wait, enumerated from Families.tla; each invocation of the real classes is a forked process that dies at the point; recovery builds validated by TLC against NinjaRef!CleanContent and the interrupt clauses",
              text="Fault enumeration over the crash points between every two persistence steps of FinishCommand/RecordCommand/RecordDeps and over interrupts, with orphaned commands completing or not; the recovery build must succeed and leave the needed closure equal to a clean build; after an interrupt: status 130, lock file gone, modified outputs (all outputs of depfile commands) gone."),
  "C10": dict(cat="model_checking", ref="6.C10", tech="metamorphic twin scenarios (discovered dependencies vs the same written as implicit inputs) generated from Families.tla, both run on the real engine; TLC trace validation compares commands, results and final contents per invocation (RefTrace.tla twin monitor)",
